@@ -186,6 +186,7 @@ LibWrap<T>: !record
 
 
 LINKED = {"main-link": "main", "import-link": "lib", "version-link": "v0"}
+DOC2 = {"main-doc2": "main/model.yml", "import-doc2": "lib/lib.yml", "version-doc2": "v0/model.yml"}
 
 
 def build_tree(base: str, where: str, bad_defs: str, helpers: bool):
@@ -211,6 +212,8 @@ def build_tree(base: str, where: str, bad_defs: str, helpers: bool):
     elif where == "version":
         files["v0/model.yml"] = VALID_MAIN + H + bad_defs
         bad_file = "v0/model.yml"
+    elif where in DOC2:
+        bad_file = DOC2[where]
     elif where in LINKED:
         # the offending model file lives outside the package; the package directory holds a symbolic link to it
         files["shared/zz_linked.yml"] = H + bad_defs
@@ -226,6 +229,10 @@ def build_tree(base: str, where: str, bad_defs: str, helpers: bool):
             out[os.path.join(os.path.dirname(k), "zz_second.yml")] = b
         else:
             out[k] = v
+    if where in DOC2:
+        # the offending definitions are a second YAML document of an existing model file
+        bad_file = DOC2[where]
+        out[bad_file] = out[bad_file].rstrip("\n") + "\n---\n" + H + bad_defs.split("\n---\n")[0] + "\n"
     common.write_tree(base, out)
     if where in LINKED:
         os.symlink(os.path.join("..", "shared", "zz_linked.yml"), os.path.join(base, bad_file))
@@ -314,10 +321,10 @@ def run(ctx):
         for pos in POSITIONS:
             if rid == "stream-outside-step" and pos == "step":
                 continue   # a stream *is* legal as the type of a protocol step
-            for where in wheres + (list(LINKED) if pos in ("field", "step") else []):
+            for where in wheres + (list(LINKED) + list(DOC2) if pos in ("field", "step") else []):
                 if quick and where == "main2" and pos not in ("field", "step"):
                     continue
-                if quick and where in LINKED and (pos != "field" or ri % 3):
+                if quick and (where in LINKED or where in DOC2) and (pos != "field" or ri % 3):
                     continue
                 jobs.append(("inject", rid, named, embed(pos, ty, "Inj"), True, pos, where))
     for rid, named, defs in DEF_RULES:
@@ -329,7 +336,7 @@ def run(ctx):
             continue
         if controls.get(rid) != "rejected":
             continue
-        for where in wheres + (["main-link"] if "\n---\n" not in defs else []):
+        for where in wheres + (["main-link", "main-doc2"] if "\n---\n" not in defs else []):
             jobs.append(("inject", rid, named, defs, False, "def", where))
 
     for job, cdir, pkgdir, bad_file, bad_dir, res in pmap(run_case, jobs):
